@@ -17,6 +17,10 @@ pub struct Case {
     pub ops: Vec<BOp>,
     pub target: u16,
     pub ns: u8,
+    /// further (target, n_s) smoothings issued on the same builder afterwards (a later call must not depend
+    /// on earlier ones)
+    #[serde(default)]
+    pub more: Vec<(u16, u8)>,
     /// per label: (low, high) small integers
     pub weights: Vec<(u8, u8)>,
     /// per label: residues selector for the finite-field count
@@ -40,22 +44,22 @@ fn ff_residue(sel: u8) -> u128 {
     }
 }
 
-fn go<'a, T: IteTable<'a, BddPtr<'a>> + Default>(
+
+#[allow(clippy::type_complexity)]
+fn smooth_once<'a, T: IteTable<'a, BddPtr<'a>> + Default>(
     b: &'a RobddBuilder<'a, T>,
+    pool: &[(BddPtr<'a>, crate::tt::Tt)],
+    n: usize,
+    target: u16,
+    ns_sel: u8,
     case: &Case,
-    st: &mut Stats,
-) -> CaseResult {
-    let mut run = BddRun::new(b, case.cfg.n0 as usize);
-    run.max_new_vars = 1;
-    for op in case.ops.iter() {
-        run.step(op);
-    }
-    let n = run.n;
-    let (f, t) = run.pool[pick(case.target, run.pool.len())];
+    call_no: usize,
+) -> Result<(bool, bool, bool, bool, BddPtr<'a>, usize), Failure> {
+    let (f, t) = pool[pick(target, pool.len())];
     let lv = order_levels(b.order());
     let order: Vec<usize> = b.order().in_order_iter().map(|v| v.value_usize()).collect();
     let lo = bdd_nodes(f).iter().map(|nd| lv[nd.var.value_usize()] + 1).max().unwrap_or(0);
-    let ns = lo + (((case.ns as usize) * (n - lo + 1)) >> 8);
+    let ns = lo + (((ns_sel as usize) * (n - lo + 1)) >> 8);
     debug_assert!(ns >= lo && ns <= n);
 
     // classify level skipping of the input
@@ -177,6 +181,40 @@ fn go<'a, T: IteTable<'a, BddPtr<'a>> + Default>(
         exp_count,
         f.to_string_debug()
     );
+    let _ = call_no;
+    Ok((skip_top, skip_mid, skip_bot, shorter, f, ns))
+}
+
+fn go<'a, T: IteTable<'a, BddPtr<'a>> + Default>(
+    b: &'a RobddBuilder<'a, T>,
+    case: &Case,
+    st: &mut Stats,
+) -> CaseResult {
+    let mut run = BddRun::new(b, case.cfg.n0 as usize);
+    run.max_new_vars = 1;
+    for op in case.ops.iter() {
+        run.step(op);
+    }
+    let n = run.n;
+    let mut calls: Vec<(u16, u8)> = vec![(case.target, case.ns)];
+    calls.extend(case.more.iter().copied().take(4));
+    let mut first: Option<(bool, bool, bool, bool, BddPtr<'a>, usize)> = None;
+    let mut distinct_ns = std::collections::BTreeSet::new();
+    for (call_no, (target, ns_sel)) in calls.iter().enumerate() {
+        let (skip_top, skip_mid, skip_bot, shorter, f, ns) = smooth_once(b, &run.pool, n, *target, *ns_sel, case, call_no)?;
+        distinct_ns.insert(ns);
+        if first.is_none() {
+            first = Some((skip_top, skip_mid, skip_bot, shorter, f, ns));
+        }
+    }
+    st.flag("several_smooth_calls_with_different_ns", distinct_ns.len() >= 2);
+    let (skip_top, skip_mid, skip_bot, shorter, f, ns) = first.unwrap();
+    let wr: Vec<(f64, f64)> = (0..n)
+        .map(|v| {
+            let (l, h) = case.weights.get(v).copied().unwrap_or((1, 1));
+            ((l % 7) as f64, (h % 7) as f64)
+        })
+        .collect();
     st.flag("skip_top", skip_top);
     st.flag("skip_middle", skip_mid);
     st.flag("skip_bottom", skip_bot);
@@ -194,7 +232,7 @@ fn go<'a, T: IteTable<'a, BddPtr<'a>> + Default>(
 impl SubCheckT for Smooth {
     type Case = Case;
     const NAME: &'static str = "smooth";
-    const RULE: &'static str = "BDD picked from a random <=25-op history under a random order (complemented roots and constants included), n_s between (deepest tested level + 1) and num_vars, arbitrary integer weights 0..6 and boundary finite-field residues: smooth(f,n_s) has f's truth table, every path tests exactly the order prefix var_at_level(0..n_s), weighted counts (real, GF(2^64-25)) equal the brute-force sum over models on those n_s variables and the unit-weight count equals the number of models. Non-trivial: some input path is shorter than n_s and the weights are not all (1,1)";
+    const RULE: &'static str = "BDD picked from a random <=25-op history under a random order (complemented roots and constants included), n_s between (deepest tested level + 1) and num_vars, arbitrary integer weights 0..6 and boundary finite-field residues: smooth(f,n_s) has f's truth table, every path tests exactly the order prefix var_at_level(0..n_s), weighted counts (real, GF(2^64-25)) equal the brute-force sum over models on those n_s variables and the unit-weight count equals the number of models. Up to 3 further smoothings (other pool entries, other n_s) are issued on the same builder and checked the same way, so a result may not depend on earlier calls. Non-trivial: some input path is shorter than n_s and the weights are not all (1,1)";
     fn cases(tier: Tier) -> u32 {
         tier.pick(6000, 200_000)
     }
@@ -204,14 +242,16 @@ impl SubCheckT for Smooth {
             ops_strategy(25),
             idx_strategy(),
             any::<u8>(),
+            proptest::collection::vec((idx_strategy(), any::<u8>()), 0..=3),
             proptest::collection::vec((0u8..7, 0u8..7), 8),
             proptest::collection::vec((any::<u8>(), any::<u8>()), 8),
         )
-            .prop_map(|(cfg, ops, target, ns, weights, ff)| Case {
+            .prop_map(|(cfg, ops, target, ns, more, weights, ff)| Case {
                 cfg,
                 ops,
                 target,
                 ns,
+                more,
                 weights,
                 ff,
             })
